@@ -6,7 +6,22 @@ import MakoModel.Filters.Sites
 Every theorem quantifies over all strings `s : List Char` (all Unicode scalar values, any length).
 Models: `MakoModel/Filters/Model.lean`; regenerated tables: `MakoModel/Generated/Filters.lean`.
 `Spec.*` are the reference decoders / vocabulary of the statements; `Filters/Sites.lean` models the application
-sites (`filter=` on `<%def>` / `<%block>` × `buffered=` × `cached=`).
+sites (`filter=` on `<%def>` / `<%block>` × `buffered=` × `cached=`), the bytes-producing entries and the
+configuration of an expression (own filters × `<%page expression_filter>` × `default_filters`).
+
+Contents (34 theorems):
+* table side conditions, re-decided on every run: `default_escapes_bind`, `xml_class_eq_keys`, `xml_table_good`,
+  `markupsafe_table_good`, `xml_entities_standard`, `markupsafe_entities_standard`, `entity_tables_ok`,
+  `handler_tables_ok`, `entity_keys_distinct`;
+* the filters, for every string: `xml_no_markup`, `xml_roundtrip`, `html_no_markup`, `html_roundtrip`, `url_safe`,
+  `url_roundtrip`, `entity_exact`, `entity_roundtrip`, `trim_only_edges`;
+* `decode`: `decode_total`, `decode_uses_own_charset`, `decode_object_is_str_at_call_time`;
+* the error handler: `htmlentityreplace_refs_decode`, `htmlentityreplace_total_and_faithful`;
+* application sites: `filter_once_at_every_site`, `guarantee_at_every_site`, `xml_no_markup_at_every_site`;
+* entries and configurations (regenerated facts + what follows from them): `def_template_inherits_output_settings`,
+  `render_buffer_uses_template_settings`, `every_entry_uses_template_settings`, `expression_filter_sources_complete`,
+  `expression_written_through_effective_chain`, `page_filter_reaches_bare_expression`, `markup_kind_facts`,
+  `html_twice_is_once`.
 
 OPEN: nothing – every statement below is the full-strength one; no finding of C10 is recorded as open.
 -/
@@ -297,7 +312,14 @@ theorem every_entry_uses_template_settings (parent : OutSettings) (e : Entry) :
 
 open MakoModel.Filters.Sites in
 /-- regenerated from `codegen.visitExpression`: the expression's own filters, the `<%page expression_filter>` and
-`default_filters` are all inspected when deciding whether the value goes through the filters -/
+`default_filters` are all inspected when deciding whether the value goes through the filters.
+What this pins: `exprFilterSources` is the set of dotted names occurring in the test of the single top-level `if` of
+`visitExpression`; the obligation is the *membership* of the three names `node.escapes`,
+`self.compiler.pagetag.filter_args.args`, `self.compiler.default_filters` - a condition that stops looking at one
+of them breaks it.  What it does not pin: how the names are combined (`or` / `and` / negation, `len(...)`), nor
+what the two branches do - that a non-empty source really leads to `create_filter_callable` and an empty chain to
+the raw value is the transcription `Sites.writeExpression`, tied to the rendered output by `corr.exprconfig` and
+asserted on the implementation by `oracle.exprconfig`. -/
 theorem expression_filter_sources_complete :
     sourceChecks exprFilterSources = ⟨true, true, true⟩ := by decide
 
